@@ -4,6 +4,9 @@ d=$1; [ -f "$d" ] || d=/verif/refactors/$1/patch.diff; P=$2; tmp=$(mktemp -d)
 files=$(grep -E '^\+\+\+ b/' $d | sed 's#+++ b/##')
 ov=""
 for f in $files; do mkdir -p $tmp/$(dirname $f); [ -f /repo/$f ] && cp /repo/$f $tmp/$f; ov="$ov,/repo/$f=$tmp/$f"; done
+dels=$(grep -B1 -E '^\+\+\+ /dev/null' $d | grep -E '^--- a/' | sed 's#--- a/##')
+for f in $dels; do mkdir -p $tmp/$(dirname $f); cp /repo/$f $tmp/$f; ov="$ov,/repo/$f=$tmp/$f"; done
 patch -p1 -s -d $tmp -i $d || echo PATCHFAIL
+for f in $dels; do echo "package $(grep -m1 -E '^package ' /repo/$f | awk '{print $2}')" > $tmp/$f; done
 /verif/bin/qedlint -prop $P -noevidence -overlay "${ov#,}" | grep -E "^FAIL|CHECKER" | cut -c1-${3:-700}
 rm -rf $tmp
